@@ -377,18 +377,14 @@ fn h1_backend_conn(sh: Arc<Shared>, s: TcpStream) {
         }
         let scripted = id.map(|id| scripted_response(&sh, id)).unwrap_or_default();
         let mut out = b"HTTP/1.1 200 OK\r\n".to_vec();
-        let mut close = false;
+        // After "Connection: close" the backend leaves the closing to sozu: closing here races with
+        // sozu's connection reuse (a failed reuse marks the backend down and later requests get 503),
+        // which is connection management (C02/C12), not header editing.
         for (n, v) in &scripted {
-            if n.eq_ignore_ascii_case("connection") && v == "close" {
-                close = true;
-            }
             out.extend_from_slice(format!("{n}: {v}\r\n").as_bytes());
         }
         out.extend_from_slice(b"Content-Length: 2\r\n\r\nok");
         if c.s.write_all(&out).is_err() {
-            return;
-        }
-        if close {
             return;
         }
     }
@@ -1217,6 +1213,7 @@ struct Stats {
     inconclusive: AtomicU64,
     sticky_set: AtomicU64,
     sticky_due: AtomicU64,
+    retry_reasons: Mutex<BTreeMap<String, u64>>,
     ids: Mutex<HashMap<String, usize>>,
 }
 
@@ -1330,6 +1327,23 @@ fn main() {
                         match r {
                             Ok((seen, sent, truth)) => {
                                 let rec = sh.records.lock().unwrap().get(&id).cloned();
+                                // 502/503/504 without any backend record: sozu could not reach the backend
+                                // (backend marked down, connect failure): the harness environment, not the
+                                // header edit. Retry once on a fresh connection, then give up as inconclusive.
+                                let gateway = rec.is_none() && ["502", "503", "504"].iter().any(|c| seen.status.contains(c))
+                                    && case.raw["ereq"]["outcome"] == "forward";
+                                if gateway {
+                                    h1.conn = None;
+                                    if attempt == 0 {
+                                        attempt = 1;
+                                        stats.retried.fetch_add(1, Ordering::Relaxed);
+                                        std::thread::sleep(Duration::from_millis(200));
+                                        continue;
+                                    }
+                                    stats.inconclusive.fetch_add(1, Ordering::Relaxed);
+                                    eprintln!("inconclusive case {}: gateway error {} twice", case.idx, seen.status);
+                                    break;
+                                }
                                 let problems = check_case(&sh, case, &seen, &sent, &truth, rec.as_ref(), &stats);
                                 if sh.verbose || (ci % 997 == 0 && samples.lock().unwrap().len() < 6) {
                                     let s = json!({"case": {"k": case.raw["k"], "req": case.req, "tr": case.tr, "resp": case.resp},
@@ -1353,6 +1367,8 @@ fn main() {
                                 if attempt == 0 {
                                     attempt = 1;
                                     stats.retried.fetch_add(1, Ordering::Relaxed);
+                                    let key = format!("{}:{}", if case.k.h2_front { "h2" } else { "h1" }, e.chars().filter(|c| !c.is_ascii_digit()).take(60).collect::<String>());
+                                    *stats.retry_reasons.lock().unwrap().entry(key).or_default() += 1;
                                     continue;
                                 }
                                 let expected_reject = case.raw["ereq"]["outcome"] == "reject";
@@ -1426,7 +1442,7 @@ fn main() {
     }
     vh::util::emit(&json!({"kind": "summary", "cases": n_cases, "exchanges": stats.exchanges.load(Ordering::Relaxed),
         "violations": v.len() + worker_panics.len(), "classes": classes, "rejects": stats.rejects.load(Ordering::Relaxed),
-        "empty_cookie_fields": stats.empty_cookie.load(Ordering::Relaxed), "retried": stats.retried.load(Ordering::Relaxed),
+        "empty_cookie_fields": stats.empty_cookie.load(Ordering::Relaxed), "retried": stats.retried.load(Ordering::Relaxed), "retry_reasons": *stats.retry_reasons.lock().unwrap(),
         "inconclusive": stats.inconclusive.load(Ordering::Relaxed), "missing_last_chunk_before_trailers": MISSING_LAST_CHUNK.load(Ordering::Relaxed), "sticky_cookie_due": stats.sticky_due.load(Ordering::Relaxed), "sticky_cookie_set": stats.sticky_set.load(Ordering::Relaxed), "listeners": addrs.len(), "workers": workers.len(),
         "distinct_token_lists": distinct.len(), "deviation_explained": dev_explained,
         "setup_s": setup_s, "run_s": run_s, "samples": samples.lock().unwrap().iter().take(4).collect::<Vec<_>>()}));
